@@ -35,6 +35,9 @@ CHECKS = {
  'C19': ('copymove', 'exhaustive enumeration of copy/move/destroy/mutate/query histories over two slots on the real classes under AddressSanitizer',
          'For 10 class instantiations and every ordered pair of 3 datasets, every valid history up to the stated length over {copy-construct, move-construct, copy-assign, move-assign, destroy source, mutate source, query target}: the target answers its whole query alphabet exactly like a freshly built original and AddressSanitizer reports no access to freed or foreign storage.',
          'AddressSanitizer build (-O1, no NDEBUG); a moved-from source is only destroyed or assigned to.', '4/C19'),
+ 'C20': ('reject', 'exhaustive enumeration of precondition violations at every position, on the real classes and the C interface',
+         'Reserved value appended (1..3 copies) to every sorted array up to N for all static classes, both MappedPGMIndex constructors and the C create functions; every DynamicPGMIndex base 2..255; every short bulk-load key sequence (inversions anywhere); the reserved mapped value offered at every point of every short update history with canonical-state and answer comparison; lo>hi ranges; too-wide coordinates at every point position and dimension; every short add_point sequence; negative epsilon. Each invalid input must raise the documented exception (NULL from C), each valid neighbour must be accepted.',
+         'Private members read with -fno-access-control for the canonical-state comparison.', '4/C20'),
  'C13': ('multidim', 'bounded-exhaustive enumeration of point multisets x boxes on the real MultidimensionalPGMIndex at the real miss threshold, brute-force oracle',
          'Every multiplicity vector in {0,1,65}^cells over small cell universes (65 copies force the bigmin skip path), full grids 16x16/32x32/8^3/4^4 with every axis-aligned box, grids with an enumerated window; Dimensions 2..4, uint32/uint64, Epsilon 1..16(64): the sequence produced by range(min,max) up to end() must equal the brute-force filter in Morton order with multiplicity and terminate.',
          'Own Morton code (self-checked against the library at start-up); coordinates fit the encoder.', '4/C13'),
@@ -107,6 +110,8 @@ def main():
              'kind_free_text': 'bounded-exhaustive enumeration of inputs and call histories through the C interface'},
             {'name': 'copymove', 'path': 'engines/copymove.cpp', 'serves_properties': ['C19'],
              'kind_free_text': 'exhaustive value-semantics histories under AddressSanitizer'},
+            {'name': 'reject', 'path': 'engines/reject.cpp', 'serves_properties': ['C20'],
+             'kind_free_text': 'exhaustive enumeration of invalid inputs and their valid neighbours'},
             {'name': 'segmentation', 'path': 'engines/segmentation.cpp', 'serves_properties': ['C03', 'C04'],
              'kind_free_text': 'bounded-exhaustive enumeration of inputs to the piecewise-linear builder with hook H1 and exact rational oracles'},
         ],
